@@ -63,7 +63,7 @@ ASSUMPTIONS = [
     "level S: cv.vhdl is the trusted simulator; static errors of the emitted VHDL are blocked_by_static (owned by C06), "
     "constructs outside its subset are blocked; a VHDL run-time error or an undefined ('U'/'X') output for a defined "
     "input is a violation with its own signature",
-    "levels T and S are sampled (a third / two thirds of the generated types with <= 30/40 leaf members, an eighth / "
+    "levels T and S are sampled (a third / two thirds of the generated types with <= 30/24 leaf members, an eighth / "
     "a quarter of the catalogue, every BitField) because one traced compile costs 0.3-5 s; level P runs on every case",
     "a cohdl exception at any step is `rejected` for that step, never a violation",
 ]
@@ -75,12 +75,12 @@ T_BUDGET = 12  # leaf-observations budget per traced compile (tracing costs 0.1-
 # ---------------------------------------------------------------------------------- plan
 def plan(tier):
     if tier == "quick":
-        n_t, per_t, n_b, per_b, n_c = 11, 40, 2, 25, 3
+        n_t, per_t, n_b, per_b, n_c = 11, 36, 2, 22, 3
     else:
         n_t, per_t, n_b, per_b, n_c = 56, 260, 8, 400, 8
     shards = [{"kind": "hyp", "name": f"type{i}", "examples": per_t, "what": "type"} for i in range(n_t)]
     shards += [{"kind": "hyp", "name": f"bf{i}", "examples": per_b, "what": "bitfield"} for i in range(n_b)]
-    n_p, per_p = (1, 24) if tier == "quick" else (4, 200)
+    n_p, per_p = (1, 16) if tier == "quick" else (4, 200)
     shards += [{"kind": "hyp", "name": f"pair{i}", "examples": per_p, "what": "tmplpair"} for i in range(n_p)]
     shards += [{"kind": "enum", "name": f"catalog{i}", "part": i, "parts": n_c, "tier": tier} for i in range(n_c)]
     return shards
@@ -374,6 +374,7 @@ class _TypeChecker:
             self.finding("count", "P", "type", f"count_bits = {n}, reference width {self.w}")
             return True  # patterns of the reference width cannot be fed
         has_sarr = "sarr" in L.kinds(self.spec)
+        tail = set(pats[-48:])
         # the classes behind FlagEnum / Enum members are what the TypeSpec says (a FlagEnum specialisation must
         # not be the cached Enum specialisation of the same underlying type, or vice versa)
         fe = _Co.load().std.FlagEnum
@@ -410,6 +411,8 @@ class _TypeChecker:
             # the value built through the public constructors, in every construction style (keywords in
             # declaration order, all positional, keywords reversed, positional + keywords, copy of reversed)
             styles = getattr(mod, "STYLES", ["kw"])
+            if len(pats) > 48 and b not in tail:
+                styles = ["kw"]  # the other construction styles on the last 48 patterns (incl. all draws) only
             for style in styles:
                 mk = mod.make if style == "kw" else getattr(mod, "make_" + style)
                 tag = "" if style == "kw" else f"[constructed {style}] "
@@ -493,7 +496,7 @@ class _TypeChecker:
         return "S"
 
     def level_s(self, mod, pats):
-        has_o2 = hasattr(mod, "Sim2")
+        has_o2 = hasattr(mod, "Sim2") and len(self.table) <= 16  # the rebuild doubles the tracing cost
         vhdl = None
         if has_o2:
             try:
@@ -715,9 +718,10 @@ def _check_type_inner(case):
         nleaf = len(chk.table)
         h = int(out.identity, 16)
         do_t = nleaf <= 30 and (h % 8 == 0 if case.get("catalog") else h % 3 == 0)
-        do_s = nleaf <= 40 and (h % 4 == 0 if case.get("catalog") else h % 3 != 2)
+        do_s = nleaf <= 24 and (h % 4 == 0 if case.get("catalog") else h % 3 != 2)
         if case.get("force_ts"):
-            do_t = do_s = nleaf <= 40
+            do_s = nleaf <= 40
+            do_t = do_s and case["force_ts"] == "ts"
         if do_t:
             chk.count("cases.T_tried." + _top(spec))
             if chk.level_t(mod, pats):
@@ -1060,7 +1064,7 @@ def _check_tmplpair(case):
         for sp in subs + [spec_ef]:
             w = L.width(sp)
             sub = _check_type({"kind": "type", "spec": sp, "draws": [d & ((1 << w) - 1) for d in case["draws"]],
-                               "force_ts": sp is not spec_ef})
+                               "force_ts": "ts" if sp is spec_e else ("s" if sp is spec_b else None)})
             out.findings += sub.findings
             out.labels += [l for l in sub.labels if not l.startswith(("top:", "depth:", "has:", "even", "uneven"))]
             for k, v in sub.counters.items():
